@@ -287,6 +287,203 @@ def rule_b_waiter_notify(ctx):
         ctx.check(ok, 'b', 'future_polls_its_direction', b, b.where(), '%s(.., Dir::%s)' % (callee, elem), '%s no longer tests the condition of its own direction (Dir::%s): it is registered on one direction and waits for the other' % (fn, elem))
 
 
+# --------------------------------------------------------------------------
+# path search under an assumed call result (P11 PATH-PARTITION over values instead of named locals)
+# --------------------------------------------------------------------------
+
+_OKV = ('Ok', 'Continue')
+
+
+def _aval_place(st, pl):
+    v = st.get(pl[0])
+    if v is None or not pl[1]:
+        return v
+    pr = pl[1]
+    # payload of an assumed Ok(..) / Continue(..): `(_r as Ok).0`
+    if isinstance(v, tuple) and v[0] == 'res' and len(pr) == 2 and isinstance(pr[0], list) and pr[0][0] == 'v' and pr[0][1] in _OKV \
+            and isinstance(pr[1], list) and pr[1][0] == 'f' and pr[1][1] == '0':
+        return v[1]
+    # through a shared reference to a tracked local: `(*_p)`
+    if isinstance(v, tuple) and v[0] == 'ref' and pr == ['*']:
+        return st.get(v[1])
+    return None
+
+
+def _aval_op(st, op):
+    if op[0] in ('c', 'm'):
+        return _aval_place(st, op[1])
+    if op[0] == 'k' and op[1] == 'int' and len(op) > 3 and op[3] == 'bool':
+        return str(op[2]) == '1'
+    return None
+
+
+def _aval_rvalue(st, rv):
+    k = rv[0]
+    if k == 'use':
+        return _aval_op(st, rv[1])
+    if k == 'un' and rv[1] == 'Not':
+        v = _aval_op(st, rv[2])
+        return (not v) if isinstance(v, bool) else None
+    if k == 'bin' and rv[1] in ('BitOr', 'BitAnd'):
+        x, y = _aval_op(st, rv[2]), _aval_op(st, rv[3])
+        dom = rv[1] == 'BitOr'           # absorbing element: true for |, false for &
+        if x is dom or y is dom:
+            return dom
+        if isinstance(x, bool) and isinstance(y, bool):
+            return (x or y) if dom else (x and y)
+        return None
+    if k == 'discr' and not rv[1][1]:
+        v = st.get(rv[1][0])
+        if isinstance(v, tuple) and v[0] == 'res':
+            return ('int', 0)            # Result::Ok = 0, ControlFlow::Continue = 0
+        if v == ('res_err',):
+            return ('int', 1)            # Result::Err = 1, ControlFlow::Break = 1
+        return None
+    if k == 'ref' and not rv[1] and not rv[2][1] and st.get(rv[2][0]) is not None:
+        return ('ref', rv[2][0])
+    return None
+
+
+def _assumed_result(b, site, payload):
+    """abstract value of the result of call `site` under the assumption `it succeeded` (Result: Ok(payload)) / `it returned
+    payload` (bool); None when the result is not the whole value of a plain bool / Result local"""
+    if site.dst[1] or site.t is None:
+        return None
+    ty = b.locals[site.dst[0]][0].replace('std::result::', '').replace('core::result::', '').replace('std::io::', '')
+    if ty == 'bool':
+        return payload if isinstance(payload, bool) else None
+    if ty.startswith('Result<'):
+        return ('res', payload)
+    return None
+
+
+def _path_assuming_value(b, site, value, goals, avoid, also=None):
+    """PATH-PARTITION generalised from named bool locals to values: a block path from call `site` to a block of `goals` that
+    avoids `avoid`, on which the call's result has abstract value `value` (True / False / ('res', payload) = Ok(payload) resp.
+    Continue(payload) / ('res_err',) = Err(_) resp. Break(_)); None if there is none.  The value is propagated forward through whole-local copies/moves, `!`, `|`, `&`
+    (so `k |= x`, `let k = a | b`, `k = a || b` lowered to branches, and `if a { k = true }` are all the same accumulation),
+    `Try::branch` (`?`), payload projections `(r as Ok).0`, `is_ok()/is_err()`; a branch whose discriminant is known takes only
+    the consistent edge (for an assumed Ok: the Ok edge of `match` / `if let` / `?` / `is_err()`).  Anything else is unknown
+    (both edges are followed), locals whose address is taken mutably are never tracked: the search over-approximates the
+    feasible paths, never under-approximates them.  `also` = {block of another call: assumed value of its result} extends the
+    assumption to calls passed on the way."""
+    if value is None:
+        return [site.bb]
+    mutb = set()
+    for blk in b.blocks:
+        if blk['c']:
+            continue
+        for s in blk['s']:
+            if s[0] == '=' and ((s[2][0] == 'ref' and s[2][1]) or s[2][0] == 'ptr'):
+                mutb.add(s[2][2][0])
+    if site.dst[0] in mutb:
+        return [site.bb]
+    goals, avoid = set(goals), set(avoid)
+    start = {site.dst[0]: value}
+    seen = set()
+    stack = [(site.t, start, (site.bb,))]
+    while stack:
+        bb, st, path = stack.pop()
+        key = (bb, tuple(sorted(st.items(), key=repr)))
+        if key in seen or bb in avoid:
+            continue
+        seen.add(key)
+        blk = b.blocks[bb]
+        if blk['c']:
+            continue
+        path = path + (bb,)
+        if bb in goals:
+            return list(path)
+        st = dict(st)
+        for s in blk['s']:
+            if s[0] == '=':
+                dl, dp = s[1]
+                if dp:
+                    # a store below a tracked local: forget that local
+                    st.pop(dl, None)
+                    continue
+                v = _aval_rvalue(st, s[2])
+                if v is not None and dl not in mutb:
+                    st[dl] = v
+                else:
+                    st.pop(dl, None)
+            elif s[0] == 'sd':
+                st.pop(s[1][0], None)
+            elif s[0] == 'dead':
+                st.pop(s[1], None)
+        # drop references to locals that are no longer tracked
+        for l_, v_ in list(st.items()):
+            if isinstance(v_, tuple) and v_[0] == 'ref' and v_[1] not in st:
+                st.pop(l_)
+        t = blk['t']
+        succ = list(b.succ[bb])
+        if t[0] == 'switch':
+            v = _aval_op(st, t[1])
+            val = None
+            if isinstance(v, bool):
+                val = 1 if v else 0
+            elif isinstance(v, tuple) and v[0] == 'int':
+                val = v[1]
+            if val is not None:
+                tgt = t[3]
+                for x, y in t[2]:
+                    if int(x) == val:
+                        tgt = y
+                succ = [tgt]
+        elif t[0] == 'call':
+            c = t[1]
+            f = c['f'] or c['df'] or ''
+            a0 = _aval_op(st, c['args'][0]) if c['args'] else None
+            nv = None
+            if isinstance(a0, tuple) and a0[0] in ('res', 'res_err') and (c.get('df') or '').endswith('Try::branch'):
+                nv = a0
+            elif isinstance(a0, tuple) and a0[0] == 'ref' and isinstance(st.get(a0[1]), tuple) and st[a0[1]][0] in ('res', 'res_err') and short(f) in ('Result::is_ok', 'Result::is_err'):
+                nv = (short(f) == 'Result::is_ok') == (st[a0[1]][0] == 'res')
+            for a in c['args']:
+                # a tracked value moved into a call is gone
+                if a[0] == 'm' and not a[1][1]:
+                    st.pop(a[1][0], None)
+            if also and bb in also:
+                nv = also[bb]
+            dl, dp = c['dst']
+            if not dp and nv is not None and dl not in mutb:
+                st[dl] = nv
+            else:
+                st.pop(dl, None)
+            succ = [c['t']] if c['t'] is not None else []
+        for s2 in succ:
+            stack.append((s2, st, path))
+    return None
+
+
+def _inlined_driver_wakes(F, b):
+    """State::wake() stated structurally: `the waker taken out of self.driver, if any, is woken`.  Blocks of
+    `Option::take(&mut <state>.driver)` whose Some payload is passed to Waker::wake on every path from the Some edge of the
+    test of its result (`if let Some(w) = self.driver.take() { w.wake() }`, `match`, `is_some()` + unwrap)."""
+    out = set()
+    live = b.live_blocks()
+    rets = set(b.return_blocks())
+    for tk in b.calls_to('Option::take'):
+        if tk.bb not in live or _outer_fields(arg_desc(F, tk, 0)) != {'driver'}:
+            continue
+        wk = {c.bb for c in b.calls_to('Waker::wake') if c.args and contains_site(arg_desc(F, c, 0), tk)}
+        if not wk:
+            continue
+        some_edges = []
+        for br in branches(F, b):
+            for t, cond in _edge_conds(br):
+                if (cond[0] == 'discr' and is_site(cond[1], tk) and cond[2] == 1) or (cond[0] == 'some' and is_site(cond[1], tk) and cond[2] is True):
+                    some_edges.append(t)
+        if some_edges and all(path_avoiding(b, [t], rets | {tk.bb}, wk) is None for t in some_edges):
+            out.add(tk.bb)
+    return out
+
+
+def _driver_wake_blocks(F, b):
+    """blocks that wake the connection driver: a call of State::wake(), or its body in place"""
+    return {c.bb for c in b.calls_to('connection::State::wake', 'State::wake')} | _inlined_driver_wakes(F, b)
+
+
 WAKE_TABLE = [
     # (quinn fn, proto callee(s), needs wake on the non-error path)
     ('SendStream::finish', ['SendStream::finish']),
@@ -311,7 +508,7 @@ def rule_c(ctx):
         sites = [c for c in b.calls() if c.is_(*protos) and c.bb in b.live_blocks()]
         if fn == 'SendStream::execute_poll':
             sites = [c for c in b.calls() if c.k in ('closurecall', 'unresolved', 'item') and short(c.f).endswith('call_once')]
-        wakes = {c.bb for c in b.calls_to('connection::State::wake', 'State::wake')}
+        wakes = _driver_wake_blocks(F, b)
         ctx.check(bool(sites) and bool(wakes), 'c', 'wake_site_present', b, b.where(), '%d proto call(s), %d wake()' % (len(sites), len(wakes)), '%s no longer wakes the driver after %s' % (fn, protos))
         for s in sites:
             n += 1
@@ -349,12 +546,12 @@ def rule_c(ctx):
     # finalize().should_transmit() -> wake in poll_read_generic
     pr = ctx.qfn('RecvStream::poll_read_generic')
     fz = pr.calls_to('Chunks::finalize')
-    wk = pr.calls_to('State::wake')
+    wk = _driver_wake_blocks(F, pr)
     ok = bool(fz) and bool(wk)
     for f in fz:
         for br in branches(F, pr):
             if D.has_call(br.desc, 'ShouldTransmit::should_transmit') and contains_site(br.desc, f):
-                if not any(w.bb in pr.reachable_from(br.target(1), avoid=[br.bb]) for w in wk):
+                if not any(w in pr.reachable_from(br.target(1), avoid=[br.bb]) for w in wk):
                     ok = False
     ctx.check(ok, 'c', 'read_credit_wakes_driver', pr, pr.where(), 'finalize().should_transmit() -> wake()', 'flow-control credit released by a read no longer wakes the driver')
 
@@ -439,6 +636,30 @@ def _is_variant_field(x, variant, field):
     return x[0] == 'field' and x[2] == field and x[1][0] == 'variant' and x[1][2] == variant
 
 
+STREAM_WAKE_EFFECT = {'wake_stream': 'Waker::wake', 'wake_stream_notify': 'Notify::notify_waiters'}
+
+
+def _inlined_stream_wake(F, b, c, helper, fld, event, stop):
+    """wake_stream(id, &mut self.<fld>) / wake_stream_notify(id, &mut self.<fld>) stated structurally: `the entry of the event's
+    stream is removed from self.<fld> and, if there was one, woken / notified`.  `c` is `HashMap::remove(&mut self.<fld>, &id)`
+    with `id` the stream id of StreamEvent::<event>, and on the Some edge of the test of its result every path (to the next
+    event / the return) passes Waker::wake resp. Notify::notify_waiters on the removed value."""
+    if not (c.is_('HashMap::remove') and len(c.args) > 1 and _outer_fields(arg_desc(F, c, 0)) == {fld}):
+        return False
+    if not any(_is_variant_field(x, event, 'id') for x in walk(arg_desc(F, c, 1))):
+        return False
+    eff = {e.bb for e in b.calls_to(STREAM_WAKE_EFFECT[helper]) if e.args and contains_site(arg_desc(F, e, 0), c)}
+    if not eff:
+        return False
+    some_edges = []
+    for br in branches(F, b):
+        for t, cond in _edge_conds(br):
+            if (cond[0] == 'discr' and is_site(cond[1], c) and cond[2] == 1) or (cond[0] == 'some' and is_site(cond[1], c) and cond[2] is True):
+                some_edges.append(t)
+    goals = set(b.return_blocks()) | set(stop) | {c.bb}
+    return bool(some_edges) and all(path_avoiding(b, [t], goals, eff) is None for t in some_edges)
+
+
 def rule_d(ctx):
     F = ctx.facts
     fa = ctx.qfn('State::forward_app_events')
@@ -470,6 +691,8 @@ def rule_d(ctx):
                 for c in _arm_calls(F, fa, br, vidx[name], stop + [x.bb for x in disp if x is not br]):
                     for wn, fld in wants:
                         if short(c.f).endswith(wn) and D.has_field(arg_desc(F, c, 1), fld):
+                            got.add((wn, fld))
+                        elif _inlined_stream_wake(F, fa, c, wn, fld, name, stop):
                             got.add((wn, fld))
         missing = [w for w in wants if w not in got]
         ctx.check(not missing, 'd', 'event_wakes_its_waiters_' + name, fa, fa.where(), '%s -> %s' % (name, wants),
@@ -653,6 +876,11 @@ def _path_assuming(F, b, site, assume, stopped, avoid):
     return None
 
 
+# State::implicit_close(shared) stated structurally: `State::close(code, reason, shared) is called` (the one-line helper only
+# supplies the code 0 and the empty reason): the helper, or the close it performs written in the drop itself
+IMPLICIT_CLOSE = ['State::implicit_close', 'connection::State::close']
+
+
 def rule_e(ctx):
     F = ctx.facts
     conn_lost = lambda c: c[0] == 'some' and _is_field_of_lock(c[1], 'error') and c[2] is True or (c[0] == 'discr' and _is_field_of_lock(c[1], 'error') and c[2] == 1)
@@ -662,7 +890,7 @@ def rule_e(ctx):
          [conn_lost, zero_rtt_rejected], 'the connection is lost / 0-RTT was rejected'),
         ('<recv_stream::RecvStream as Drop>::drop', ['quinn_proto::RecvStream::stop', 'RecvStream::stop'], 'implicit stop',
          [conn_lost, zero_rtt_rejected, lambda c: c[0] == 'bool' and c[1][0] == 'field' and c[1][2] == 'all_data_read' and c[1][1][0] == 'param' and c[2] is True], 'all data was read / the connection is lost / 0-RTT was rejected'),
-        ('<connection::ConnectionRef as Drop>::drop', ['State::implicit_close'], 'implicit close on last handle',
+        ('<connection::ConnectionRef as Drop>::drop', IMPLICIT_CLOSE, 'implicit close on last handle',
          [lambda c: c[0] == 'rel' and any(x[0] == 'call' and x[1].endswith('::fetch_sub') for x in walk(c[1][1])) or c[0] == 'rel' and any(x[0] == 'call' and x[1].endswith('::fetch_sub') for x in walk(c[1][2])),
           lambda c: c[0] == 'bool' and c[1][0] == 'call' and c[1][1].endswith('Connection::is_closed') and c[2] is True], 'other handles remain / the connection is already closed'),
         ('<connection::State as Drop>::drop', ['EndpointEvent::drained'], 'endpoint notified', None, ''),
@@ -705,7 +933,7 @@ def rule_e(ctx):
     # the implicit finish (and the reset that replaces it on a stopped stream) queue frames: on the success edge of each, every
     # path to the return wakes the driver
     sd = ctx.qfn('<send_stream::SendStream as Drop>::drop')
-    wakes = {c.bb for c in sd.calls_to('connection::State::wake', 'State::wake')}
+    wakes = _driver_wake_blocks(F, sd)
     fin = sd.calls_to('quinn_proto::SendStream::finish')
     rst = sd.calls_to('quinn_proto::SendStream::reset')
     okw = bool(wakes) and bool(fin)
@@ -748,7 +976,7 @@ def rule_e(ctx):
     # last handle: the close is skipped exactly when the decrement saw more than one handle
     cr = ctx.qfn('<connection::ConnectionRef as Drop>::drop')
     fs = [c for c in cr.calls() if short(c.f).endswith('::fetch_sub') and D.has_field(arg_desc(F, c, 0), 'ref_count')]
-    ics = sorted(bb for bb in may_sites(F, cr, ['State::implicit_close'], 2) if bb in cr.live_blocks())
+    ics = sorted(bb for bb in may_sites(F, cr, IMPLICIT_CLOSE, 2) if bb in cr.live_blocks())
     okl = bool(fs) and bool(ics)
     for sb in ics:
         rels = [cond[1] for br, cond in _skipping(F, cr, sb) if cond[0] == 'rel' and any(contains_site(x, c) for c in fs for x in (cond[1][1], cond[1][2]))]
@@ -766,6 +994,29 @@ def rule_e(ctx):
     ctx.check(any(c.is_('Notify::notify_waiters') for c in ed.calls()) and any(c.is_('HashMap::clear') for c in ed.calls()), 'e', 'endpoint_driver_drop_releases', ed, ed.where(), 'senders.clear(); incoming.notify_waiters()', 'dropping the endpoint driver leaves accept() waiters / connection senders dangling')
 
 
+def _put_back_blocks(F, sd):
+    """blocks of SendDatagram::poll that store the datagram handed back by the blocked Datagrams::send() into the future's
+    `data` slot: `this.data.replace(d)` / `insert(d)` on that slot, or the same store written as an assignment through the
+    slot's reference, `*this.data = Some(d)`; in both forms `d` derives from the result of that send()"""
+    sends = sd.calls_to('Datagrams::send')
+    live = sd.live_blocks()
+    d = describer(F, sd)
+    handed_back = lambda x: any(contains_site(x, s_) for s_ in sends)
+    out = set()
+    for c in sd.calls_to('Option::replace', 'Option::insert'):
+        if len(c.args) > 1 and _outer_fields(arg_desc(F, c, 0)) == {'data'} and handed_back(arg_desc(F, c, 1)):
+            out.add(c.bb)
+    for i, j, pl, rv, line in sd.assigns():
+        if i not in live or not pl[1] or pl[1][-1] != '*':
+            continue
+        if _outer_fields(d.place(pl, i, j)) != {'data'}:
+            continue
+        v = flat(d.rvalue(rv, i, j, 0))
+        if v and all(x[0] == 'agg' and x[2].endswith('Option::Some') and handed_back(x) for x in v):
+            out.add(i)
+    return out
+
+
 def rule_f(ctx):
     F = ctx.facts
     # take-then-Pending paths: from the Some edge of the proto accessor, no Pending construction is reachable
@@ -781,9 +1032,9 @@ def rule_f(ctx):
                     ok = all(p not in b.reachable_from(t_some, avoid=[br.bb]) for p in pend)
             ctx.check(ok, 'f', 'taken_item_returned_ready', b, s.where(), 'Some(item) edge reaches no Pending', '%s can take an item from the connection and then return Pending (the item is lost if the future is dropped)' % fn, site_class=fn)
     sd = ctx.qfn('<SendDatagram as Future>::poll')
-    rep = [c for c in sd.calls_to('Option::replace')]
+    rep = _put_back_blocks(F, sd)
     pend = [c.bb for c in sd.calls() if c.is_('<Notified as Future>::poll', 'Notified::poll')]
-    ok = bool(rep) and bool(pend) and all(any(sd.dominates(r.bb, p) for r in rep) for p in pend)
+    ok = bool(rep) and bool(pend) and all(any(sd.dominates(r, p) for r in rep) for p in pend)
     ctx.check(ok, 'f', 'blocked_datagram_put_back', sd, sd.where(), 'this.data.replace(data) dominates the Pending path', 'a blocked datagram is not put back before returning Pending')
     ep = ctx.qfn('SendStream::execute_poll')
     pend = [c for c in constructions(F, 'Poll', 'Pending', crate='quinn') if c.body.id == ep.id]
@@ -818,19 +1069,20 @@ def rule_f(ctx):
 
 
 def _busy_edge_wakes(F, b, producers, pend_blocks, wakes):
-    """the branch on the accumulated `work remains` flag (a bool computed from the results of all `producers`): on its TRUE edge
-    every path to a Pending construction passes a self-wake"""
-    found = False
-    for br in branches(F, b):
-        inner, neg = peel_not(br.desc)
-        if inner[0] == 'discr' or not all(D.has_call(inner, p_) for p_ in producers):
-            continue
-        for t, cond in _edge_conds(br):
-            if cond[0] == 'bool' and cond[2] is True:
-                found = True
-                if path_avoiding(b, [t], pend_blocks, wakes) is not None:
-                    return False
-    return found
+    """every stage in `producers` reports `work remains` by returning true (Ok(true)): on every path from such a stage to a
+    Pending construction that is consistent with the stage having returned true, the driver wakes itself.  (The flag the stages'
+    results are accumulated into may be written `k |= a; k |= b`, `a | b`, `a || b` on already evaluated operands, or as
+    branches: the path search propagates the assumed result through all of them.)  Returns (ok, offending path)."""
+    for p_ in producers:
+        sites = [c for c in b.calls_to(p_)]
+        if not sites:
+            return False, None
+        for s_ in sites:
+            v = _assumed_result(b, s_, True)
+            p = _path_assuming_value(b, s_, v, pend_blocks, wakes)
+            if p is not None:
+                return False, p
+    return True, None
 
 
 def rule_g(ctx):
@@ -843,29 +1095,47 @@ def rule_g(ctx):
     # order: what processing / transmitting / timers produce is forwarded in the same poll: from each producing stage every path to a
     # return (other than the error exits: `?`, terminate) passes the later stages
     errs = {c.bb for c in dp.calls() if c.is_('FromResidual::from_residual', 'connection::State::terminate', 'State::terminate')}
-    st = {n_: {c.bb for c in dp.calls_to('State::' + n_)} for n_ in ('process_conn_events', 'drive_transmit', 'drive_timer', 'forward_endpoint_events', 'forward_app_events')}
+    stc = {n_: dp.calls_to('State::' + n_) for n_ in ('process_conn_events', 'drive_transmit', 'drive_timer', 'forward_endpoint_events', 'forward_app_events')}
+    st = {n_: {c.bb for c in cs_} for n_, cs_ in stc.items()}
+    succeeded = {c.bb: _assumed_result(dp, c, None) for cs_ in stc.values() for c in cs_ if _assumed_result(dp, c, None) is not None}
     order_bad = []
     for first, then in (('process_conn_events', 'drive_transmit'), ('process_conn_events', 'forward_endpoint_events'), ('process_conn_events', 'forward_app_events'),
                         ('drive_transmit', 'forward_endpoint_events'), ('drive_transmit', 'forward_app_events'), ('drive_timer', 'forward_endpoint_events'), ('drive_timer', 'forward_app_events')):
-        for sb in st[first]:
-            p_ = path_avoiding(dp, dp.succ[sb], dp.return_blocks(), st[then] | errs)
+        for sb in stc[first]:
+            # the error exit of a stage is the Err edge of the test of its own result, however that test is written
+            # (`?`, `if let Err(e)`, `match`, `is_err()`): only paths on which the stage succeeded are examined
+            v_ = _assumed_result(dp, sb, None)
+            p_ = _path_assuming_value(dp, sb, v_, dp.return_blocks(), st[then] | errs, succeeded) if v_ is not None else path_avoiding(dp, dp.succ[sb.bb], dp.return_blocks(), st[then] | errs)
             if p_ is not None:
                 order_bad.append('%s is not followed by %s: %s' % (first, then, fmt_path(dp, p_)))
+    # ... and the error exit of a stage is a real one: on every path on which the stage failed, the failure is propagated to the
+    # caller (`?`, or `return Poll::Ready(Err(e))` with `e` the stage's own error) or the connection state is terminated
+    dd = describer(F, dp)
+    for cs_ in stc.values():
+        for sb in cs_:
+            if _assumed_result(dp, sb, None) is None:
+                continue
+            prop = {c.bb for c in constructions(F, 'Result', 'Err', crate='quinn') if c.body.id == dp.id and c.ops and contains_site(dd.operand(c.ops[0], c.bb, c.idx), sb)}
+            p_ = _path_assuming_value(dp, sb, ('res_err',), dp.return_blocks(), errs | prop)
+            if p_ is not None:
+                order_bad.append('a failed %s is neither propagated nor terminates the connection: %s' % (short(sb.f), fmt_path(dp, p_)))
     ctx.check(all(st.values()) and not order_bad, 'g', 'driver_stages', dp, dp.where(), 'events -> transmit -> timer -> forward, each later stage on every non-error path after the earlier one',
               'the connection driver loop no longer runs its stages in order (events produced by a stage are not forwarded in the same poll): %s' % '; '.join(order_bad[:3]))
     # polarity of the reschedule decision: when a stage reported remaining work (keep_going) the driver wakes itself
     pend_b = [p.bb for p in pend]
     wk_self = {c.bb for c in dp.calls_to('Waker::wake_by_ref')}
-    ctx.check(_busy_edge_wakes(F, dp, ('State::drive_transmit', 'State::drive_timer'), pend_b, wk_self), 'g', 'driver_busy_self_wakes', dp, dp.where(), 'keep_going == true edge -> wake_by_ref() before Pending',
-              'the connection driver does not wake itself on the edge where drive_transmit / drive_timer reported remaining work')
+    okb, pb = _busy_edge_wakes(F, dp, ('State::drive_transmit', 'State::drive_timer'), pend_b, wk_self)
+    ctx.check(okb, 'g', 'driver_busy_self_wakes', dp, dp.where(), 'keep_going == true edge -> wake_by_ref() before Pending',
+              'the connection driver does not wake itself on the edge where drive_transmit / drive_timer reported remaining work: %s' % fmt_path(dp, pb))
     dt = ctx.qfn('State::drive_timer')
     ht = dt.calls_to('quinn_proto::Connection::handle_timeout')
     ctx.check(len(ht) >= 2 and bool(dt.calls_to('quinn_proto::Connection::poll_timeout')), 'g', 'timer_serviced', dt, dt.where(), 'poll_timeout + handle_timeout (clock check and post-poll)', 'drive_timer no longer services expired deadlines')
     edp = ctx.qfn('<EndpointDriver as Future>::poll')
     epend = [c.bb for c in constructions(F, 'Poll', 'Pending', crate='quinn') if c.body.id == edp.id]
     ewk = {c.bb for c in edp.calls_to('Waker::wake_by_ref')}
-    ctx.check(bool(ewk) and bool(epend) and _busy_edge_wakes(F, edp, ('State::drive_recv', 'State::handle_events'), epend, ewk), 'g', 'endpoint_driver_self_wakes', edp, edp.where(), 'keep_going == true edge -> wake_by_ref() before Pending',
-              'the endpoint driver no longer reschedules itself when work remains (no wake_by_ref on the edge where drive_recv / handle_events reported remaining work)')
+    okb, pb = _busy_edge_wakes(F, edp, ('State::drive_recv', 'State::handle_events'), epend, ewk)
+    ctx.check(bool(ewk) and bool(epend) and okb, 'g', 'endpoint_driver_self_wakes', edp, edp.where(), 'keep_going == true edge -> wake_by_ref() before Pending',
+              'the endpoint driver no longer reschedules itself when work remains (no wake_by_ref on the edge where drive_recv / handle_events reported remaining work): %s' % fmt_path(edp, pb))
 
 
 def run(ctx):
